@@ -574,6 +574,9 @@ def sphdist(ra1, dec1, ra2, dec2, units=["deg", "deg"]):
     x1, y1, z1 = eq2xyz(ra1, dec1, units=units_in)
     x2, y2, z2 = eq2xyz(ra2, dec2, units=units_in)
 
+    # one of the points may be a scalar and the other an array
+    x1, y1, z1, x2, y2, z2 = np.broadcast_arrays(x1, y1, z1, x2, y2, z2)
+
     dsq = (x1-x2)**2 + (y1-y2)**2 + (z1-z2)**2
     dis = 2*np.arcsin(0.5*np.sqrt(dsq))
     w = dsq >= 3.99
